@@ -46,6 +46,8 @@ SPECIAL = [
     ("ru", "12 января 2020 г., в 10:30", None), ("hr", "12. 1. 2020. u 10:30", None), ("hr", "12. 01. 2020.", None), ("en", "posted on: 12 January 2020", None),
     ("en", "12 Jan. 2020 10:30", None), ("fr", "12 janv. 2020", None), ("en", "» 12 January 2020", None), ("en", "12 January 2020 · 10:30", None),
     ("en", "Jan 12 ’20", None), ("en", "12 January 2020 10:30 a.m.", None), ("de", "12. Januar 2020 um 10:30 Uhr", None),
+    ("es", "5 de enero de 2020 10:30 p. m.", None), ("es", "5 de enero de 2020 10:30 a. m.", None), ("en", "12 January 2020 10:30 p. m.", None),
+    ("pt", "5 de janeiro de 2020 \u00e0s 10:30", None), ("it", "5 gennaio 2020 alle ore 10:30", None), ("nl", "5 januari 2020 om 10:30 uur", None),
     ("en", "1570308760", None), ("en", "1570308760123", None), ("en", "2020010212", ["%Y%m%d%H"]), ("en", "02-03-04", ["%y-%m-%d"]),
     ("en", "2014-12-31 10:30", ["%Y-%m-%d %H:%M"]), ("en", "31 December 2014", ["%d %B %Y"]), ("fr", "31 décembre 2014", ["%d %B %Y"]),
     ("en", "10:30", ["%H:%M"]), ("en", "1000000000", ["%H%M%S%d%m"]), ("en", "12/2014", ["%m/%Y"]),
